@@ -238,7 +238,9 @@ func (d *segmentationDescriptor) parseDescriptor(data []byte) error {
 			if buf.Len() < 10 {
 				return gots.ErrInvalidSCTE35Length
 			}
-			d.duration = uint40(buf.Next(5))
+			// segmentation_duration is a 40 bit field
+			db := buf.Next(5)
+			d.duration = gots.PTS(db[0])<<32 | gots.PTS(db[1])<<24 | gots.PTS(db[2])<<16 | gots.PTS(db[3])<<8 | gots.PTS(db[4])
 		}
 		// Upid unneeded now...
 		d.upidType = SegUPIDType(readByte())
